@@ -1130,3 +1130,31 @@ def replay_glue_history(p):
     hits = [f for f in found if f[0] in classes] if classes else found
     return {"reproduced": bool(hits), "expected": "every text judged as in a fresh process",
             "observed": "; ".join(h[1] for h in hits[:2]) or "no history changes a verdict (classes %s, others %d)" % (sorted(classes), len(found))}
+
+
+@register("probit_quantile")
+def replay_probit_quantile(p):
+    """numeric search: is the module's z-score below the true normal quantile somewhere? (true quantile from
+    statistics.NormalDist, compared with a relative margin of 1e-9: the logit bound touches the quantile to first order
+    at alpha = 1/2, where only rounding noise separates them)"""
+    import statistics
+    from pyab_experiment.utils.stats import probit
+    N = statistics.NormalDist()
+    cands = [p.get("alpha", 0.25)]
+    cands += [k / 1000 for k in range(1, 1000)] + [k / 100000 for k in range(1, 1000)] + [1 - k / 100000 for k in range(1, 1000)]
+    cands += [10.0 ** -e for e in range(3, 16)] + [1 - 10.0 ** -e for e in range(3, 16)] + [0.5 + d for d in (1e-3, -1e-3, 1e-2, -1e-2)]
+    cands += [10.0 ** -e for e in (20, 30, 50, 80, 100, 120, 150, 200, 250, 300, 307)] + [5e-324, 1 - 2.0 ** -53]
+    bad = []
+    for a in cands:
+        if not 0 < a < 1 or a == 0.5:
+            continue
+        o = outcome_of(lambda: probit(a))
+        q = abs(N.inv_cdf(a))
+        if o[0] != "value" or not isinstance(o[1], (int, float)):
+            bad.append((a, show(o), q))
+        elif o[1] < q * (1 - 1e-9) - 1e-12:
+            bad.append((a, o[1], q))
+        if len(bad) >= 3:
+            break
+    return {"reproduced": bool(bad), "expected": "probit(alpha) >= normal quantile on %d points" % len(cands),
+            "observed": "; ".join("probit(%r) = %r < quantile %r" % b for b in bad) or "never below the true quantile on the grid"}
